@@ -311,8 +311,70 @@ def rule_bits(c, prog, R="C04.gram"):
     c.floor(R, n, 2, "bit-field types with bits the document calls meaningless")
 
 
+def rule_lookup_skip(c, prog, R="C04.pre"):
+    """the descriptor lookup of the binary reader (`find_canonical_property`) evaluated on every kind of descriptor the
+    database holds: it may answer `no such property` for a canonical property marked DoesNotSerialize, and for nothing
+    else that has a value type — a chunk named `size` / `Color3uint8` / `AttributesSerialize` resolves to a canonical
+    property whose serialization is SerializesAs(..), a legacy name to one that Migrates"""
+    from sa import sym, wire
+    from . import C15_sites as S
+    PSER = "rbx_reflection::database::PropertySerialization"
+    PKIND = "rbx_reflection::database::PropertyKind"
+    fn = common.find_fn(prog, r"deserializer::state::find_canonical_property$")
+    D = ("in", "descriptors")
+    prims = [(re.compile(r"core::find_property_descriptors$"), S.const_prim(sym.var(sym.SOME, D)))]
+    env = {p["lid"]: ("in", p["name"]) for p in fn.params}
+    try:
+        I, val, ex = wire.run_region(prog, fn.body, env, prims, depth=3)
+    except (sym.Unsupported, core.AnalysisError) as e:
+        c.violation(R, "lookup|cannot-analyse", f"find_canonical_property is outside the symbolic model: {e}", fn.sp, instance="lookup:skips-only-non-serializing")
+        return
+    kind_t = sym.fld(sym.fld(D, "canonical"), "kind")
+    dt_t = sym.fld(sym.fld(D, "canonical"), "data_type")
+    rows = {}
+    for kind, ser in (("Canonical", "Serializes"), ("Canonical", "DoesNotSerialize"), ("Canonical", "SerializesAs"), ("Canonical", "Migrate"), ("Alias", None)):
+        def oracle(t, kind=kind, ser=ser):
+            if t[0] == "is":
+                x, v = t[1], t[2]
+                if x == kind_t and v.startswith(PKIND + "::"):
+                    return v == f"{PKIND}::{kind}"
+                if x == dt_t:
+                    return v.endswith("DataType::Value")
+                if v.startswith(PSER + "::") and S.contains(x, kind_t):
+                    return ser is not None and v == f"{PSER}::{ser}"
+            return None
+        try:
+            evs, x = sym.taken_path(I.events, oracle)
+            if x is not None and x[0] in ("return", "err"):
+                out = x[1]
+            else:
+                out = val
+            res = "None" if sym.is_var(out, sym.NONE) else ("Some" if sym.is_var(out, sym.SOME) else "?")
+            while res == "?" and isinstance(out, tuple) and out and out[0] == "phi":
+                for cnd, alt in out[1]:
+                    if sym.eval_bool(cnd, oracle):
+                        out = alt
+                        break
+                else:
+                    break
+                res = "None" if sym.is_var(out, sym.NONE) else ("Some" if sym.is_var(out, sym.SOME) else "?")
+        except sym.Undetermined as e:
+            res = f"undetermined ({e})"
+        rows[f"{kind}{'/' + ser if ser else ''}"] = res
+    c.sample({"rule": R, "find_canonical_property": rows})
+    inst = "lookup:skips-only-non-serializing"
+    want = {"Canonical/Serializes": "Some", "Canonical/DoesNotSerialize": "None", "Canonical/SerializesAs": "Some", "Canonical/Migrate": "Some", "Alias": "Some"}
+    bad = {k: v for k, v in rows.items() if v != want[k] and not (k == "Canonical/DoesNotSerialize" and v == "Some")}
+    if bad:
+        k0 = sorted(bad)[0]
+        c.violation(R, f"lookup|{k0}", f"find_canonical_property answers {bad[k0]} for a descriptor whose canonical property is {k0} (expected {want[k0]}): PROP chunks stored under the serialized name of such a property ({'size, Color3uint8, AttributesSerialize, archivable …' if 'SerializesAs' in k0 else 'the names this kind covers'}) are dropped on read, although the writer writes exactly those names", fn.sp, instance=inst)
+    else:
+        c.ok(R, inst)
+
+
 def rule_prefilter(c, prog, R="C04.pre"):
     c.rule(R, "decode_prop_chunk leaves a PROP chunk unread only for the documented reasons (no type byte, unknown type byte, the descriptor lookup misses): no test over the wire type / declared type in front of the dispatch match returns Ok(()) — a pre-filter would drop pairs the dispatch has arms for (declared Color3 stored as Color3uint8, narrower numeric encodings)")
+    rule_lookup_skip(c, prog, R)
     fn = common.find_fn(prog, DS + "decode_prop_chunk$")
     # the ways a PROP chunk is left unread are exactly: no type byte, unknown type byte, `Name` (handled apart), property
     # not found / not serializing (the descriptor lookup).  Any other `return Ok(())` in front of the dispatch `match` —
